@@ -1,9 +1,254 @@
 import BronVerif.Drive.Common
-/-! Driver handlers for C05. -/
-namespace BronVerif.Drive.C05
-open BronVerif BronVerif.Drive
+import BronVerif.Model.Curves
+import BronVerif.Model.Vss
+/-!
+Driver handlers for C05 (Feldman / Pedersen share verification).
 
-def handle (op : String) (_args : List String) (_rhs : String) : Verdict :=
-  .unsupported ("C05 op " ++ op)
+Every line carries the MSP matrix `M` (row-major), the row → holder labels, the verification
+vector as points and the share as scalars.  The handler instantiates `Model/Vss.lean` with the
+scalar field `Fp n` and the runtime curve points of `Model/Curves.lean` and recomputes the
+verdict (`M_id · V` by the left action in model curve arithmetic against `share • G`).  Accept /
+reject is exactly determined by the property, hence `spec`.
+-/
+namespace BronVerif.Drive.C05
+open BronVerif BronVerif.Drive BronVerif.LinAlg BronVerif.Curves BronVerif.Vss
+
+/-- scalar action of `Fp n` on the points of the prime-order group of `C` (`n = C.n`); residues
+above `n/2` act as the negative of their complement (the group has order `n`), which keeps
+the small negative coefficients of MSP matrices cheap -/
+def smulFp (C : Params) {n : Nat} (k : Fp n) (P : Pt) : Pt :=
+  if 2 * k.val > n then Curves.neg C (Curves.smul C (n - k.val) P) else Curves.smul C k.val P
+
+@[reducible] def instAddPt (C : Params) : Add Pt := ⟨Curves.add C⟩
+@[reducible] def instZeroPt (C : Params) : OfNat Pt 0 := ⟨Curves.zero C⟩
+@[reducible] def instSMulPt (C : Params) (n : Nat) : HSMul (Fp n) Pt Pt := ⟨smulFp C⟩
+
+def parseMat {p : Nat} [NeZero p] (rows cols : Nat) (s : String) : Option (Mat (Fp p)) := do
+  let xs ← parseNatList? s
+  if xs.length ≠ rows * cols then none
+  if cols = 0 then return List.replicate rows []
+  return chunk (fpList xs) cols
+
+def parseScalars {p : Nat} [NeZero p] (s : String) : Option (List (Fp p)) :=
+  (parseNatList? s).map fpList
+
+/-- `id:v,v;id:v` -/
+def parseShares {p : Nat} [NeZero p] (s : String) : Option (List (Nat × List (Fp p))) :=
+  if s == "-" || s == "" then some [] else
+  (s.splitOn ";").mapM fun part =>
+    match part.splitOn ":" with
+    | [ids, vs] => do
+      let id ← ids.toNat?
+      let v ← parseScalars vs
+      some (id, v)
+    | _ => none
+
+/-- `id:s,s/b,b;id:s/b` -/
+def parsePShares {p : Nat} [NeZero p] (s : String) : Option (List (Nat × List (Fp p) × List (Fp p))) :=
+  if s == "-" || s == "" then some [] else
+  (s.splitOn ";").mapM fun part =>
+    match part.splitOn ":" with
+    | [ids, rest] =>
+      match rest.splitOn "/" with
+      | [ss, bs] => do
+        let id ← ids.toNat?
+        let sv ← parseScalars ss
+        let bv ← parseScalars bs
+        some (id, sv, bv)
+      | _ => none
+    | _ => none
+
+def renderShares {p : Nat} (xs : List (Nat × List (Fp p))) : String :=
+  ";".intercalate (xs.map fun (id, v) => toString id ++ ":" ++ fpHexList v)
+
+def renderPts (C : Params) (ps : List Pt) : String := joinComma (ps.map (render C))
+
+def acc (b : Bool) : String := if b then "accept" else "reject"
+
+/-- the MSP context shared by all ops: `<curve> <cols> <M> <labels>` -/
+structure Ctx (n : Nat) where
+  C : Params
+  cols : Nat
+  M : Mat (Fp n)
+  labels : List Nat
+
+def parseCtx (cn cols ms ls : String) (k : (n : Nat) → [NeZero n] → Ctx n → Verdict) : Verdict :=
+  match byName? cn, cols.toNat?, parseDecList? ls with
+  | some C, some c, some labels =>
+    withPrime C.n (.unsupported "n=0") fun n =>
+      match parseMat (p := n) labels.length c ms with
+      | some M => if M.length ≠ labels.length then .unsupported "matrix-shape" else k n ⟨C, c, M, labels⟩
+      | none => .unsupported "matrix"
+  | _, _, _ => .unsupported "ctx"
+
+/-- entry of the concatenated share column at each selected row, in row order -/
+def assemble {α : Type} (labels : List Nat) (shares : List (Nat × List α)) : Option (List α) :=
+  let idx := List.range labels.length
+  (idx.filter fun i => (shares.lookup (labels.getD i 0)).isSome).mapM fun i =>
+    let l := labels.getD i 0
+    match shares.lookup l with
+    | some vs => vs[(labels.take i).count l]?
+    | none => none
+
+def handle (op : String) (args : List String) (rhs : String) : Verdict :=
+  match op, args with
+  -- dealing with the dealer's column revealed: V = r • G and the shares M·r, exactly
+  | "fdeal", [_kind, cn, cols, ms, ls, rs] =>
+    parseCtx cn cols ms ls fun n _ x =>
+      letI := instAddPt x.C; letI := instZeroPt x.C; letI := instSMulPt x.C n
+      match parseScalars (p := n) rs with
+      | none => .unsupported "column"
+      | some r =>
+        if r.length ≠ x.cols then spec "deal-column-length" "reject" rhs else
+        let V : List Pt := liftColumn r (gen x.C)
+        let sh := (holders x.labels).map fun id => (id, shareOf x.M x.labels r id)
+        spec "deal" (renderPts x.C V ++ "|" ++ renderShares sh) rhs
+  | "fverify", [kind, cn, cols, ms, ls, vs, dls, ids, ss] =>
+    parseCtx cn cols ms ls fun n _ x =>
+      letI := instAddPt x.C; letI := instZeroPt x.C; letI := instSMulPt x.C n
+      match parseList? x.C vs, ids.toNat?, parseScalars (p := n) ss with
+      | some V, some id, some s =>
+        let model := feldmanVerify x.M x.labels V (gen x.C) id s
+        -- cross-check with the scalar characterisation (`feldman_verify_iff`) when the harness
+        -- knows the discrete logarithms of V
+        let consistent : Bool :=
+          if dls == "-" then true else
+          match parseScalars (p := n) dls with
+          | some dl =>
+            dl.length == V.length &&
+            (model == (numCols x.M == dl.length && x.labels.contains id && s == shareOf x.M x.labels dl id))
+          | none => false
+        if !consistent then .unsupported "model: curve verdict differs from scalar verdict"
+        else spec ("feldman-verify-" ++ kind) (acc model) rhs
+      | _, _, _ => .unsupported "args"
+  | "fnewvv", [cn, cols, ms, ls, vs] =>
+    parseCtx cn cols ms ls fun _ _ x =>
+      match parseList? x.C vs with
+      | some V => spec "vv-length" (if vvLenOk x.M V then "ok" else "reject") rhs
+      | none => .unsupported "args"
+  | "fsum", [cn, cols, ms, ls, vss, ids, sss] =>
+    parseCtx cn cols ms ls fun n _ x =>
+      letI := instAddPt x.C; letI := instZeroPt x.C; letI := instSMulPt x.C n
+      match (vss.splitOn ";").mapM (parseList? x.C), ids.toNat?, (sss.splitOn ";").mapM (parseScalars (p := n)) with
+      | some (V0 :: Vs), some id, some (s0 :: srest) =>
+        let Vsum : Option (List Pt) := Vs.foldl (fun a W => a.bind fun v => vvOp v W) (some V0)
+        match Vsum with
+        | none => spec "vv-op" "reject" rhs
+        | some V =>
+          let s := srest.foldl shareAdd s0
+          spec "vv-op-sum" (renderPts x.C V ++ "|" ++ fpHexList s ++ "|" ++ acc (feldmanVerify x.M x.labels V (gen x.C) id s)) rhs
+      | _, _, _ => .unsupported "args"
+  | "frecexp", [cn, cols, ms, ls, vs, idss] =>
+    parseCtx cn cols ms ls fun n _ x =>
+      letI := instAddPt x.C; letI := instZeroPt x.C; letI := instSMulPt x.C n
+      match parseList? x.C vs, parseDecList? idss with
+      | some V, some ids =>
+        if !(vvLenOk x.M V) then spec "recexp" "reject" rhs else
+        -- public shares of the presented holders, concatenated in row order
+        let lam : List Pt := actOnColumn (pickSet x.labels ids x.M) V
+        match reconstructInExponent x.M x.labels ids lam with
+        | none => spec "recexp-unqualified" "reject" rhs
+        | some P =>
+          -- `reconstruct_in_exponent`: the result is the committed public value `V₀`
+          if P ≠ V.headD (Curves.zero x.C) then .unsupported "model: reconstruction in the exponent differs from V0"
+          else spec "recexp" (render x.C P) rhs
+      | _, _ => .unsupported "args"
+  | "frecver", [_kind, cn, cols, ms, ls, vs, shs] =>
+    parseCtx cn cols ms ls fun n _ x =>
+      letI := instAddPt x.C; letI := instZeroPt x.C; letI := instSMulPt x.C n
+      match parseList? x.C vs, parseShares (p := n) shs with
+      | some V, some shares =>
+        let ids := shares.map (·.1)
+        if !(shares.all fun (id, s) => feldmanVerify x.M x.labels V (gen x.C) id s) then
+          spec "recver-verify" "reject" rhs
+        else
+          match assemble x.labels shares with
+          | none => spec "recver-assemble" "reject" rhs
+          | some lam =>
+            match reconstruct x.M x.labels ids lam with
+            | none => spec "recver-unqualified" "reject" rhs
+            | some sec => spec "recver" ("ok:" ++ sec.toHex) rhs
+      | _, _ => .unsupported "args"
+  | "fshard", [_kind, cn, cols, ms, ls, vs, ids, ss] =>
+    parseCtx cn cols ms ls fun n _ x =>
+      letI := instAddPt x.C; letI := instZeroPt x.C; letI := instSMulPt x.C n
+      match parseList? x.C vs, ids.toNat?, parseScalars (p := n) ss with
+      | some V, some id, some s =>
+        if !(vvLenOk x.M V) || !(feldmanVerify x.M x.labels V (gen x.C) id s) then spec "shard" "reject" rhs
+        else
+          let pks := (holders x.labels).map fun h =>
+            toString h ++ ":" ++ renderPts x.C (liftedShareOf x.M x.labels V h)
+          spec "shard" ("ok:" ++ render x.C (liftedSecret x.M V) ++ "|" ++ ";".intercalate pks) rhs
+      | _, _, _ => .unsupported "args"
+
+  -- ---------------------------------------------------------------- Pedersen
+  | "pdeal", [_kind, cn, cols, ms, ls, hs, rgs, rhs'] =>
+    parseCtx cn cols ms ls fun n _ x =>
+      letI := instAddPt x.C; letI := instZeroPt x.C; letI := instSMulPt x.C n
+      match parse? x.C hs, parseScalars (p := n) rgs, parseScalars (p := n) rhs' with
+      | some H, some rg, some rh =>
+        if rg.length ≠ x.cols || rh.length ≠ x.cols then spec "pdeal-column-length" "reject" rhs else
+        let V : List Pt := pedersenColumn rg rh (gen x.C) H
+        let sh := (holders x.labels).map fun id =>
+          toString id ++ ":" ++ fpHexList (shareOf x.M x.labels rg id) ++ "/" ++ fpHexList (shareOf x.M x.labels rh id)
+        spec "pdeal" (renderPts x.C V ++ "|" ++ ";".intercalate sh) rhs
+      | _, _, _ => .unsupported "args"
+  | "pverify", [kind, cn, cols, ms, ls, hs, vs, ids, ss, bs] =>
+    parseCtx cn cols ms ls fun n _ x =>
+      letI := instAddPt x.C; letI := instZeroPt x.C; letI := instSMulPt x.C n
+      match parse? x.C hs, parseList? x.C vs, ids.toNat?, parseScalars (p := n) ss, parseScalars (p := n) bs with
+      | some H, some V, some id, some s, some b =>
+        spec ("pedersen-verify-" ++ kind) (acc (pedersenVerify x.M x.labels V (gen x.C) H id s b)) rhs
+      | _, _, _, _, _ => .unsupported "args"
+  | "psum", [cn, cols, ms, ls, hs, vss, ids, sss, bss] =>
+    parseCtx cn cols ms ls fun n _ x =>
+      letI := instAddPt x.C; letI := instZeroPt x.C; letI := instSMulPt x.C n
+      match parse? x.C hs, (vss.splitOn ";").mapM (parseList? x.C), ids.toNat?,
+            (sss.splitOn ";").mapM (parseScalars (p := n)), (bss.splitOn ";").mapM (parseScalars (p := n)) with
+      | some H, some (V0 :: Vs), some id, some (s0 :: srest), some (b0 :: brest) =>
+        let Vsum : Option (List Pt) := Vs.foldl (fun a W => a.bind fun v => vvOp v W) (some V0)
+        match Vsum with
+        | none => spec "pvv-op" "reject" rhs
+        | some V =>
+          let s := srest.foldl shareAdd s0
+          let b := brest.foldl shareAdd b0
+          spec "pvv-op-sum" (renderPts x.C V ++ "|" ++ fpHexList s ++ "|" ++ fpHexList b ++ "|" ++
+            acc (pedersenVerify x.M x.labels V (gen x.C) H id s b)) rhs
+      | _, _, _, _, _ => .unsupported "args"
+  | "precver", [_kind, cn, cols, ms, ls, hs, vs, shs] =>
+    parseCtx cn cols ms ls fun n _ x =>
+      letI := instAddPt x.C; letI := instZeroPt x.C; letI := instSMulPt x.C n
+      match parse? x.C hs, parseList? x.C vs, parsePShares (p := n) shs with
+      | some H, some V, some shares =>
+        let ids := shares.map (·.1)
+        if !(shares.all fun (id, s, b) => pedersenVerify x.M x.labels V (gen x.C) H id s b) then
+          spec "precver-verify" "reject" rhs
+        else
+          match assemble x.labels (shares.map fun (id, s, _) => (id, s)) with
+          | none => spec "precver-assemble" "reject" rhs
+          | some lam =>
+            match reconstruct x.M x.labels ids lam with
+            | none => spec "precver-unqualified" "reject" rhs
+            | some sec => spec "precver" ("ok:" ++ sec.toHex) rhs
+      | _, _, _ => .unsupported "args"
+  | "pextract", [cn, cols, ms, ls, hs, vs, ids, s1s, b1s, s2s, b2s] =>
+    parseCtx cn cols ms ls fun n _ x =>
+      letI := instAddPt x.C; letI := instZeroPt x.C; letI := instSMulPt x.C n
+      match parse? x.C hs, parseList? x.C vs, ids.toNat?, parseScalars (p := n) s1s, parseScalars (p := n) b1s,
+            parseScalars (p := n) s2s, parseScalars (p := n) b2s with
+      | some H, some V, some id, some s1, some b1, some s2, some b2 =>
+        let a1 := pedersenVerify x.M x.labels V (gen x.C) H id s1 b1
+        let a2 := pedersenVerify x.M x.labels V (gen x.C) H id s2 b2
+        -- `pedersen_binding_extract_partial`: two different accepted openings give log_G H
+        let extractOk : Bool :=
+          if a1 && a2 && (s1 ≠ s2 || b1 ≠ b2) then
+            match pedersenExtract s1 b1 s2 b2 with
+            | some a => smulFp x.C a (gen x.C) == H
+            | none => false
+          else true
+        if !extractOk then .unsupported "model: extractor does not yield log_G H"
+        else spec "pedersen-openings" (acc a1 ++ "," ++ acc a2) rhs
+      | _, _, _, _, _, _, _ => .unsupported "args"
+  | _, _ => .unsupported ("C05 op " ++ op)
 
 end BronVerif.Drive.C05
